@@ -6,6 +6,7 @@ import (
 	"time"
 
 	"github.com/jdillenkofer/pithos/verifharness/sim"
+	"github.com/jdillenkofer/pithos/verifharness/world"
 )
 
 var realStack = []string{"internal/storage/metadatapart (+metadatastore/sql, gc, dedup)", "internal/storage/database (sqlite, repositories, tx hooks)", "mattn/go-sqlite3 + database/sql", "part stores: filesystem, sql, compression, tink encryption, erasure coding, cache, outbox, named stores", "internal/checksumutils", "internal/ioutils"}
@@ -48,8 +49,13 @@ func thinkTimes(rc *RunCtx, scale int) func() time.Duration {
 // world, one client task executing generated operations against storage and
 // model, the real background workers running on the simulated clock.
 func runHistory(rc *RunCtx, cfg DriverCfg, named bool, nOps int, after func(d *Driver) *Violation) (*Violation, error) {
+	return runHistorySpec(rc, cfg, func(g *sim.Tape) (world.Spec, []string) { return GenSpec(g, named, true) }, nOps, after)
+}
+
+// runHistorySpec is runHistory with the world spec drawn by genSpec.
+func runHistorySpec(rc *RunCtx, cfg DriverCfg, genSpec func(g *sim.Tape) (world.Spec, []string), nOps int, after func(d *Driver) *Violation) (*Violation, error) {
 	g := rc.Gen()
-	spec, classes := GenSpec(g, named, true)
+	spec, classes := genSpec(g)
 	cfg.Classes = classes
 	w, err := rc.World(spec)
 	if err != nil {
@@ -110,12 +116,39 @@ func runHistory(rc *RunCtx, cfg DriverCfg, named bool, nOps int, after func(d *D
 	return viol, herr
 }
 
+// chunkedSpec draws a stack whose stores split a part into 8 MiB chunks: the
+// part outbox (over transaction-free and SQL bottoms, below and above other
+// middlewares) and the SQL part store; 1 in 8 a stack of the general swarm.
+func chunkedSpec(g *sim.Tape) (world.Spec, []string) {
+	ob := world.LayerSpec{Kind: "outbox", Lease: time.Duration(1+g.Int(30)) * time.Second}
+	var s world.StackSpec
+	switch g.Int(8) {
+	case 0, 1:
+		s = world.StackSpec{Bottom: "fs", Layers: []world.LayerSpec{ob}}
+	case 2:
+		s = world.StackSpec{Bottom: "sql", Layers: []world.LayerSpec{ob}}
+	case 3:
+		s = world.StackSpec{Bottom: "fs", Layers: []world.LayerSpec{{Kind: "tink"}, ob}}
+	case 4:
+		s = world.StackSpec{Bottom: "fs", Layers: []world.LayerSpec{ob, {Kind: "zstd", SampleSize: 1024, MaxRatio: 0.95}}}
+	case 5:
+		s = world.StackSpec{Layers: []world.LayerSpec{{Kind: "ec", Data: 2, Parity: 1, StripeShard: 65536, ShardBottom: "fs"}, ob}}
+	case 6:
+		s = world.StackSpec{Bottom: "sql"}
+	default:
+		s = GenStack(g, true)
+	}
+	// fast time scale: the outbox worker polls every simulated second
+	spec := world.Spec{Default: s, TimeScale: 0, GCGrace: []time.Duration{time.Second, 5 * time.Second}[g.Int(2)], GCInterval: 2 * time.Second}
+	return spec, nil
+}
+
 func init() {
 	keysCfg := func(g *sim.Tape) ([]string, []string) {
 		return []string{"bucket-a", "bucket-b", "bucket-c"}[:2+g.Int(2)], hostileKeys(g, 3+g.Int(3))
 	}
 	Register(&Scenario{
-		Prop: "C01", Name: "seq-history",
+		Prop: "C01", Name: "seq-history", Weight: 10,
 		Rule: "generated sequential histories (bucket/put/copy/append/multipart/delete/versioning/tagging/transition ops, unique bodies of sizes 0..70000 B, multi-MiB in thorough, and in 1 of 20 runs (thorough 1 of 6) one or two bodies around 8 and 16 MiB, the chunk size of the outbox and SQL part stores) on a swarm-chosen part-store stack with the real GC/outbox/heal workers on the simulated clock; every op compared with the reference model, full-state checkpoints every 7 ops and after the GC windows; non-trivial = at least one acknowledged mutation",
 		Real: realStack,
 		Run: func(rc *RunCtx) (*Violation, error) {
@@ -137,6 +170,24 @@ func init() {
 				n = 60
 			}
 			return runHistory(rc, cfg, true, n, nil)
+		},
+	})
+	Register(&Scenario{
+		Prop: "C01", Name: "chunk-boundary-bodies",
+		Rule: "short sequential histories (6 ops, thorough 12: put/append/multipart/copy/get/delete/versioning on one bucket and 2-3 keys) in which every second body until one (thorough: two) is used is 8 MiB-1, 8 MiB, 8 MiB+1, 8 MiB+4097, 9449529 or 16 MiB+1 bytes long (the part outbox and the SQL part store split a part into 8 MiB chunks), the others 0..65537 B; stacks: part outbox over fs / sql / fs+tink / erasure-coded fs shards, under zstd, the plain SQL part store, 1 in 8 a stack of the general swarm; the real outbox worker and GC on the simulated clock; every write is read back at once (the client is not preempted, so the part is still queued in the outbox) and again after think times of up to 2 s and after the GC windows (flushed by then); every op compared with the reference model; 1 run in 11 of the C01 check; non-trivial = at least one acknowledged mutation",
+		Real: realStack,
+		Run: func(rc *RunCtx) (*Violation, error) {
+			g := rc.Gen()
+			cfg := DriverCfg{Buckets: []string{"bucket-a"}, Keys: []string{"a", "dir/file", "Z"}[:2+g.Int(2)], WVersioning: 1, WPut: 8, WGet: 3, WDelete: 2, WDeleteVersion: 1, WCopy: 2, WAppend: 4, WMultipart: 4,
+				HugeBodies: 1, HugeDen: 2, BigOnce: true, BodySizes: []int{0, 1, 300, 1024, 65537},
+				// mostly two chunks (the cheapest bodies that span a chunk boundary), now and then three
+				HugeSizes: []int{8<<20 - 1, 8 << 20, 8<<20 + 1, 8<<20 + 1, 8<<20 + 4097, 8<<20 + 4097, 9449529, 16<<20 + 1},
+				Oracles:   map[string]bool{OContent: true, OErrKind: true}}
+			n := 6
+			if rc.Thorough() {
+				n, cfg.HugeBodies = 12, 2
+			}
+			return runHistorySpec(rc, cfg, chunkedSpec, n, nil)
 		},
 	})
 }
